@@ -3,6 +3,7 @@ the lowering rule, in the JAX-0.7 API model."""
 from __future__ import annotations
 
 import types
+from vt.stubs.ns import StubNS
 
 import z3
 
@@ -39,7 +40,7 @@ class VmapRec:
 
 def install_jax():
     v = VmapRec()
-    pjax.jax = types.SimpleNamespace(vmap=v)
+    pjax.jax = StubNS(vmap=v)
     return v
 
 
@@ -504,7 +505,7 @@ class LoweringRule(_NoReplay):
     def call(self, case):
         self.lowered = []
         outer = self
-        pjax.mlir = types.SimpleNamespace(lower_fun=lambda *a, **k: outer.lowered.append(a) or (lambda *b, **c: "lowered"))
+        pjax.mlir = StubNS(lower_fun=lambda *a, **k: outer.lowered.append(a) or (lambda *b, **c: "lowered"))
         self.exc = pjax.LoweringSamplePrimitiveToMLIRException("msg", {"sampler_name": "d"})
         prim = pjax.adev_sample_p if case == "adev_sample_p" else pjax.sample_p
         params = {"lowering_exception": self.exc, "impl": None}
@@ -543,9 +544,9 @@ class PPForwards(_NoReplay):
         # the registries of the JAX-0.7 API: plain dicts / a registration function
         reg = {"jvp": {}, "batch": {}, "lowering": {}}
         saved = (pjax.ad, pjax.batching, pjax.mlir)
-        pjax.ad = types.SimpleNamespace(primitive_jvps=reg["jvp"])
-        pjax.batching = types.SimpleNamespace(primitive_batchers=reg["batch"])
-        pjax.mlir = types.SimpleNamespace(register_lowering=lambda p, r: reg["lowering"].__setitem__(p, r))
+        pjax.ad = StubNS(primitive_jvps=reg["jvp"])
+        pjax.batching = StubNS(primitive_batchers=reg["batch"])
+        pjax.mlir = StubNS(register_lowering=lambda p, r: reg["lowering"].__setitem__(p, r))
         try:
             pp = pjax.PPPrimitive(Inner(), lowering_exception=self.exc, marker=1)
         finally:
@@ -622,3 +623,7 @@ class SampleBinding(_NoReplay):
             rejected = True
         yield "batch_rule_rejects_plain_vmap", rejected
         yield "keyless_impl_is_KeylessWrapper", isinstance(b["f"], pjax.KeylessWrapper)
+
+from vt.contract import canary as _canary  # noqa: E402
+
+_canary(SampleRuleDataflow, "no_parameter_batched", "sample_shape_extended_by_lane_count")
